@@ -6,14 +6,24 @@
      - per stream format (same order as fmts) the readers present in streamFormat.onDatas;
    and at the end, per reader, the callbacks that returned (in order) and whether RemoveReader has returned. *)
 From Coq Require Import List ZArith Bool Arith.
-Require Import MTX.Model.C17_StreamSM.
+Require Export MTX.Model.C17_StreamSM.
 Import ListNotations.
 Local Open Scope Z_scope.
 
-Inductive ostep := St (l : label) (pulled : option (Z * Z)) (snap : list (Z * Z * Z)) (subs : list (list Z)).
+(* monomorphic constructors: the cases files are large and tuples/options are slow to elaborate *)
+Inductive oitem := It (f u : Z).
+Inductive opull := NoPull | Pulled (f u : Z).
+Inductive osnap := Sn (r d o : Z).
+Inductive ofin := Fin (r : Z) (delivered : list oitem) (joined : bool).
+Inductive ostep := Sto (l : label) (p : opull) (snap : list osnap) (subs : list (list Z)).
 
-Inductive case :=
-  Hist (fmts : list Z) (qsize : Z) (steps : list ostep) (final : list (Z * list (Z * Z) * bool)).
+Inductive case0 := Hist (fmts : list Z) (qsize : Z) (steps : list ostep) (final : list ofin).
+Definition case := case0.
+
+Definition un_item (i : oitem) : Z * Z := match i with It f u => (f, u) end.
+Definition un_pull (p : opull) : option (Z * Z) := match p with NoPull => None | Pulled f u => Some (f, u) end.
+Definition un_snap (x : osnap) : Z * Z * Z := match x with Sn r d o => (r, d, o) end.
+Definition un_fin (x : ofin) : Z * list (Z * Z) * bool := match x with Fin r del j => (r, map un_item del, j) end.
 
 Definition item_eqb (a b : Z * Z) : bool := (fst a =? fst b) && (snd a =? snd b).
 
@@ -69,7 +79,8 @@ Definition pull_ok (s : state) (l : label) (pulled : option (Z * Z)) : bool :=
 Fixpoint steps_ok (s : state) (steps : list ostep) : option state :=
   match steps with
   | [] => Some s
-  | St l pulled snap subs :: t =>
+  | Sto l p snap0 subs :: t =>
+      let pulled := un_pull p in let snap := map un_snap snap0 in
       match step s l with
       | Some s1 => if pull_ok s1 l pulled && snap_ok s1 snap && subs_ok s1 (s_formats s1) subs
                    then steps_ok s1 t else None
@@ -91,7 +102,7 @@ Definition mismatch (c : case) : bool :=
   match c with
   | Hist fmts qsize steps final =>
       match steps_ok (init fmts (Z.to_nat qsize)) steps with
-      | Some s => negb (final_ok s final)
+      | Some s => negb (final_ok s (map un_fin final))
       | None => true
       end
   end.
@@ -218,7 +229,8 @@ Fixpoint spec_snap (qsize : Z) (l : label) (rs : list srd) (snap : list (Z * Z *
 Fixpoint spec_walk (qsize : Z) (cur : option Z) (rs : list srd) (steps : list ostep) : option (list srd) :=
   match steps with
   | [] => Some rs
-  | St l pulled snap _ :: t =>
+  | Sto l p snap0 _ :: t =>
+      let pulled := un_pull p in let snap := map un_snap snap0 in
       match spec_label cur rs l pulled with
       | Some (cur1, rs1) =>
           match spec_snap qsize l rs1 snap with
@@ -246,7 +258,7 @@ Definition spec_fail (c : case) : bool :=
   match c with
   | Hist fmts qsize steps final =>
       match spec_walk qsize None [] steps with
-      | Some rs => negb (spec_final rs final)
+      | Some rs => negb (spec_final rs (map un_fin final))
       | None => true
       end
   end.
